@@ -22,12 +22,19 @@ Proved here - the lemmas the accept / reject simulation rests on:
   `undo_string` - the `finalize` step - restores from the text it returns, accepting every wrapper spells the new
   text (`C09_text_update_accept`) and rejecting every wrapper the old text (`C10_text_update_reject`); the same for
   any engine answer made of equal / insert / delete segments (`C09_make_diff_tags_marks`).
+* the whole formatter, placeholder-free clause of C08 (`Proofs/Finalize.lean`, `Proofs/FmtInv.lean`): without text tags
+  and without `use_replace`, from a left document without private-use characters, for every script whose handlers
+  succeed, engine answers of equal / insert / delete segments over such texts: the maker is never touched, every text
+  and tail of the working tree is plain or a string `_make_diff_tags` emitted (`FInv`, kept by all twelve handlers),
+  `finalize` succeeds (for every sufficiently large fuel) and the tree handed to `render` contains no placeholder
+  character (`C08_output_placeholder_free`).
 Not proved: the composition at tree level (accept (format L S) = patch L S, reject (format L S) = L) - it
 is decided on every run by the projection oracles on the real output; and it is *false* of
 the code for the two recorded findings (text after a comment, tail of a deleted / moved node).
 -/
 import XmlDiffModel.Proofs.XmlFormat
 import XmlDiffModel.Proofs.TextMark2
+import XmlDiffModel.Proofs.FmtInv
 
 namespace XmlDiffModel
 open Tree
@@ -93,6 +100,37 @@ theorem C10_text_update_reject (tt ft : List Str) (docs : List Tree) (s : FState
   obtain ⟨out, h1, rt, rs, h2, _, h4⟩ := text_update_accept_reject s
     (by rw [hph] at hhi ⊢; exact base_history tt ft docs hhi) hu bis a b hlen hla hlb more hs
   exact ⟨out, h1, rt, rs, h2, h4⟩
+
+open TextMark in
+/-- **What `format` hands to `render` has no placeholder characters** - formatter without text tags and without
+`use_replace`, left document `L` (comments removed) without private-use characters, every oracle answer a list of
+equal / insert / delete segments over such texts, new texts of the script without private-use characters: whenever
+the handlers accept the script (`runFmt` succeeds), the maker state is the one `__init__` built, `undo_element` on
+the root - `finalize` - succeeds for every sufficiently large fuel, and the tree it returns has no placeholder
+character in any text or tail. -/
+theorem C08_output_placeholder_free (qn : QName) (ft : List Str) (L : Tree) (nx : Nat) (segs : List (List Seg))
+    (w : Bool) (script : List Action) (s' : FState)
+    (hlow : Undo.LowT L)
+    (hsegs : ∀ d ∈ segs, (∀ x ∈ d, x.op ≠ .rep) ∧ (∀ x ∈ d, x.old = []) ∧ ∀ x ∈ d, ∀ c ∈ x.text, c.toNat ≤ phStart)
+    (hact : ∀ a ∈ script, ∀ n t, a = .updateTextIn n t → ∀ c ∈ strOf t, c.toNat ≤ phStart)
+    (h : runFmt qn { tree := L, next := nx, ph := phInit [] ft, segs := segs, useReplace := false, wsText := w }
+      script = .ok s') :
+    s'.ph = phInit [] ft ∧
+      ∃ r after, (∃ N, ∀ f, N ≤ f → undoElement f s'.ph diffElemList s'.tree = .ok (r, after)) ∧
+        Undo.PlainT s'.ph r := by
+  have inv := finv_init ft L nx segs w hlow hsegs
+  refine format_placeholder_free qn script _ s' inv (fun a ha => ?_) h
+  cases a <;> try trivial
+  case updateTextIn n t => exact hact _ ha n t rfl
+
+/-- Non-vacuity of `C08_output_placeholder_free`: the handlers accept a text update with a delete + insert answer. -/
+example :
+    let e (t : String) (tx : Option String) : Payload := ⟨.elem, t.toList, [], tx.map String.toList, none⟩
+    let L : Tree := .node 0 (e "a" none) [.node 1 (e "b" (some "old")) []]
+    let s0 : FState := ⟨L, 20, phInit [] [], [[⟨.del, "old".toList, []⟩, ⟨.ins, "new".toList, []⟩]], false, false⟩
+    (runFmt QName.plain s0
+      [.updateTextIn [⟨.name "a".toList, some 1⟩, ⟨.name "b".toList, some 1⟩] (some "new".toList)]).toOption.isSome = true := by
+  decide +kernel
 
 /-- Non-vacuity of the hypotheses: the fresh formatter state, the texts "hello world" / "hello there". -/
 example : (phInit [] []) = doTrees [] (phInit [] []) ∧ (phInit [] []).counter < 0x110000 ∧
